@@ -285,7 +285,11 @@ def run_case(case):
                     pos = prng.randrange(max(1, min(n, x.N))) * psize + pm[1]
                     counters['particle_member_perturbations'] = counters.get('particle_member_perturbations', 0) + 1
                 elif name == 'var_config':
-                    pos = 32            # lrescale, not the sim pointer
+                    # any persisted member of a random configuration: order @8, index @12, testparticle @16, index_1st_order_a @20,
+                    # index_1st_order_b @24, lrescale @32 (never the back pointer to the simulation @0)
+                    pos = prng.randrange(max(1, n)) * rt.VARCFG_SIZE + prng.choice([8, 12, 16, 20, 24, 32, 32]) - 3
+                    pos = max(pos, 5)
+                    counters['var_config_member_perturbations'] = counters.get('var_config_member_perturbations', 0) + 1
                 elif name in ('ri_whfast.p_jh',):
                     pos = 8
                 elif name == 'ri_whfast512.pjh':
